@@ -70,7 +70,7 @@ func (v DenseInt16Vector) APPEND(w DenseInt16Vector) DenseInt16Vector {
   return append(v, w...)
 }
 func (v DenseInt16Vector) ToDenseInt16Matrix(n, m int) *DenseInt16Matrix {
-  if n*m != len(v) {
+  if n < 0 || m < 0 || n*m != len(v) {
     panic("Matrix dimension does not fit input vector!")
   }
   matrix := DenseInt16Matrix{}
